@@ -193,14 +193,14 @@ class KindInterp:
                 self.env[st.target.id] = self.ev(st.value)
             return
         if isinstance(st, ast.Assign):
+            v = self.ev(st.value)  # always evaluated: the right-hand side may raise
             for t in st.targets:
                 if isinstance(t, ast.Name):
-                    self.env[t.id] = AV(UNKNOWN)
-            if len(st.targets) == 2 or all(isinstance(t, ast.Name) for t in st.targets):
-                v = self.ev(st.value)
-                for t in st.targets:
-                    if isinstance(t, ast.Name):
-                        self.env[t.id] = v
+                    self.env[t.id] = v
+                else:
+                    for n in ast.walk(t):
+                        if isinstance(n, ast.Name) and isinstance(n.ctx, ast.Store):
+                            self.env[n.id] = AV(UNKNOWN)
             return
         if isinstance(st, ast.Assert):
             t = self.truth(st.test)
